@@ -45,7 +45,7 @@ class Origin(threading.Thread):
             self.raw_accepts += 1
             rec = {'handshake': None, 'plaintext': b'', 'requests': []}
             self.log.append(rec)
-            c.settimeout(5)
+            c.settimeout(60)
             try:
                 t = self.ctx.wrap_socket(c, server_side=True)
                 rec['handshake'] = 'ok'
@@ -72,7 +72,10 @@ class Origin(threading.Thread):
                         elif isinstance(ev, h11.Data):
                             cur['body'] += bytes(ev.data)
                         elif isinstance(ev, h11.EndOfMessage):
-                            body = b'origin|%s|%s|%s' % (cur['method'], cur['target'], cur['body'])
+                            shown = cur['body'] if len(cur['body']) <= 1000 else digest(cur['body'])
+                            body = b'origin|%s|%s|%s' % (cur['method'], cur['target'], shown)
+                            if cur['target'] == b'/big':
+                                body = big_body()
                             t.sendall(b'HTTP/1.1 200 OK\r\nContent-Length: %d\r\nX-Origin: yes\r\n\r\n' % len(body) + body)
                             conn.send(h11.Response(status_code=200, headers=[('content-length', '0')]))
                             conn.send(h11.EndOfMessage())
@@ -89,7 +92,16 @@ class Origin(threading.Thread):
         self.lsock.close()
 
 
-def read_until(sock, marker, timeout=10):
+def digest(b):
+    import hashlib
+    return b'sha1:%s:%d' % (hashlib.sha1(b).hexdigest().encode(), len(b))
+
+
+def big_body(n=600000):
+    return b''.join(b'%07d|' % i for i in range(n // 8))
+
+
+def read_until(sock, marker, timeout=60):
     sock.settimeout(timeout)
     data = b''
     while marker not in data:
@@ -118,7 +130,7 @@ def one_connection(pt, ex, origin, host_for_connect, verify_ca, expect_cert_name
         ctx.load_verify_locations(verify_ca)
         ctx.check_hostname = True
         ctx.verify_mode = ssl.CERT_REQUIRED
-        a.settimeout(15)
+        a.settimeout(60)
         try:
             t = ctx.wrap_socket(a, server_hostname=expect_cert_name)
         except (ssl.SSLError, OSError) as e:
@@ -134,6 +146,8 @@ def one_connection(pt, ex, origin, host_for_connect, verify_ca, expect_cert_name
             'chunked': [b'POST /p HTTP/1.1\r\nHost: %s\r\nTransfer-Encoding: chunked\r\n\r\n3\r\nabc\r\n2\r\nde\r\n0\r\n\r\n' % target.encode()],
             'two': [b'GET /one HTTP/1.1\r\nHost: %s\r\n\r\n' % target.encode(),
                     b'POST /two HTTP/1.1\r\nHost: %s\r\nContent-Length: 4\r\n\r\nbody' % target.encode()],
+            'big': [b'GET /big HTTP/1.1\r\nHost: %s\r\n\r\n' % target.encode(),
+                    b'POST /up HTTP/1.1\r\nHost: %s\r\nContent-Length: %d\r\n\r\n' % (target.encode(), len(big_body())) + big_body()],
         }[pt['payload']]
         conn = h11.Connection(our_role=h11.CLIENT)
         bodies = []
@@ -150,6 +164,8 @@ def one_connection(pt, ex, origin, host_for_connect, verify_ca, expect_cert_name
             for pc in pieces:
                 t.sendall(pc)
                 time.sleep(0.02)
+            if pt['payload'] == 'big':
+                time.sleep(0.25)      # slow reader: the proxy's TLS writes towards us must hit back-pressure
             # read one response
             m = rq.split(b' ')[0]
             conn2 = h11.Connection(our_role=h11.CLIENT)
@@ -176,7 +192,7 @@ def one_connection(pt, ex, origin, host_for_connect, verify_ca, expect_cert_name
                     elif isinstance(ev, h11.EndOfMessage):
                         done = True
                         break
-            bodies.append(body.decode('latin-1'))
+            bodies.append((body if len(body) <= 1000 else digest(body)).decode('latin-1'))
         obs['client_app_bytes'] = len(got)
         obs['response_bodies'] = bodies
         try:
@@ -264,7 +280,7 @@ def main():
         origin.join(3)
         res['origin'] = [{'handshake': r['handshake'], 'plaintext_len': len(r['plaintext']),
                           'requests': [{'method': q['method'].decode(), 'target': q['target'].decode('latin-1'),
-                                        'body': q['body'].decode('latin-1'),
+                                        'body': (q['body'] if len(q['body']) <= 1000 else digest(q['body'])).decode('latin-1'),
                                         'headers': [[n.decode('latin-1'), v.decode('latin-1')] for n, v in q['headers']]}
                                        for q in r['requests']]} for r in origin.log]
         res['origin_cert_der'] = origin.cert_der.hex()
